@@ -238,6 +238,34 @@ fn c16_imm_update_nested() {
     kani::cover!(true, "COVER:reach");
 }
 
+/// A target variable bound by TWO patterns of different kinds, the second one in
+/// a UNION branch (an alternative: the engine ADDS the branch's solutions,
+/// anda_cognitive_nexus kql/mod.rs). With the ASSERTION binding first the
+/// rewrite of `confidence` is rejected (obligation). With the CONCEPT binding
+/// first, `bound_kind_of` answers Concept and the same rewrite is ACCEPTED by
+/// the parser although ?t also ranges over Assertions: recorded as the cover
+/// `rebinding_accepted` (an observation for the report, not an obligation —
+/// the engine re-checks the element kind at execution, kml/update.rs).
+#[kani::proof]
+#[kani::unwind(16)]
+fn c16_imm_update_rebinding() {
+    {
+        stack_vec!(a = [(sv("confidence"), val())]);
+        stack_vec!(acts = [UpdateAction::SetFields(a)]);
+        stack_vec!(branch = [bind(CONCEPT, "t")]);
+        stack_vec!(wh = [bind(ASSERTION, "t"), WhereClause::Union(branch)]);
+        assert!(guard_update(&update(acts, wh)).is_err(), "OBL:C16.imm.update_payload_rejected");
+    }
+    {
+        stack_vec!(a = [(sv("confidence"), val())]);
+        stack_vec!(acts = [UpdateAction::SetFields(a)]);
+        stack_vec!(branch = [bind(ASSERTION, "t")]);
+        stack_vec!(wh = [bind(CONCEPT, "t"), WhereClause::Union(branch)]);
+        kani::cover!(guard_update(&update(acts, wh)).is_ok(), "COVER:rebinding_accepted");
+    }
+    kani::cover!(true, "COVER:reach");
+}
+
 fn set_structural_rejected(kind: usize) -> bool {
     stack_vec!(e = [StructuralEdge { field: SymbolRef::Name(sv("f")), value: val(), options: None }]);
     stack_vec!(acts = [UpdateAction::SetStructural(e)]);
